@@ -127,8 +127,10 @@ fn apply_operator(left: &Value, op: &str, right: &Value) -> Result<Value> {
         return Ok(Value::String(concatenated));
     }
 
-    let left_num = left_num.unwrap();
-    let right_num = right_num.unwrap();
+    // A non-numeric operand of -, *, / or % is an evaluation error, not a panic
+    // (for + the non-numeric case was handled as concatenation above).
+    let left_num = left_num?;
+    let right_num = right_num?;
 
     let result = match op {
         "+" => left_num + right_num,
